@@ -479,7 +479,9 @@ def c20_run(ctx: Ctx):
 
 # ================================================================== C16
 SING_TERMS = [("{x}/(exp({x}) - 1)", "0"), ("sin({x})/{x}", "0"), ("({x} - {a})/(exp({x} - {a}) - 1)", "{a}"), ("({x} - {a})*({x} + 1)/({x} - {a})", "{a}"),
-              ("(exp({x}) - 1)/{x}", "0"), ("log(1 + {x}*{x})/({x}*{x})", "0")]
+              ("(exp({x}) - 1)/{x}", "0"), ("log(1 + {x}*{x})/({x}*{x})", "0"),
+              # the singular quotient inside a function call, and a singularity without a quotient
+              ("exp({x}/(exp({x}) - 1))", "0"), ("atan(sin({x})/{x})", "0"), ("{x}*log({x}*{x})", "0")]
 POLE_TERMS = ["1/({x} - {a})", "p/{x}"]
 PLAIN_TERMS = ["{x}*p", "exp(-{x})", "cos({x}) + p"]
 
